@@ -93,6 +93,7 @@ CLAIMED = {
         text="Partial claim (term level). Unbounded: 15 language inclusions decided by z3's regex theory for strings of any length - IRIREF, "
              "STRING_LITERAL_QUOTE, literal with datatype/language, LANGTAG, BLANK_NODE_LABEL, INTEGER/DECIMAL/DOUBLE and their precedence, "
              "a whole N-Triples line against the token sequence read from parseline's AST, BNode()/URIRef.n3() output within the grammar; "
+             "relative IRI resolution (notation3.join) against RFC 3986 for symbolic path segments by shape; xml:lang scoping of the RDF/XML SAX handler with symbolic attribute values; "
              "witnesses are replayed through the real parser. Bounded: nt._quote_encode on every string of length <=3 (thorough 4) is a valid "
              "STRING_LITERAL_QUOTE decoding to the input; ntriples.unquote and SinkParser.strconst agree with a grammar-derived decoder on "
              "a<escape>b for symbolic a, b and 8-14 enumerated escapes in all four quoting styles.",
@@ -106,9 +107,9 @@ CLAIMED = {
              "nt._quote_encode -> ntriples.unquote, Literal._quote_encode (short and triple-quoted branch) -> SinkParser.strconst with "
              "exact end-of-token detection before @lang / ^^<iri> / ' .', XML text/attribute escaping against a reference unescaper, and the "
              "Turtle numeric/boolean shorthand of Literal._literal_n3 re-typed by the grammar for every valid lexical form up to length "
-             "4-5; engine S on the serializers' list-detection code (JSON-LD to_collection, Turtle/LongTurtle isValidList) over rdf:first/rdf:rest chains with symbolic members and 6 defect shapes incl. cycles (step budget). Document-level structure (bnode inlining, qnames, RDF/XML nesting, whole JSON-LD documents) is not claimed.",
+             "4-5 and for any text with a value up to length 3-4, the regex guards of that shorthand decided by z3 for every length (with CPython's meaning of `$` under match/fullmatch); engine S on the serializers' list-detection code (JSON-LD to_collection, Turtle/LongTurtle isValidList) over rdf:first/rdf:rest chains with symbolic members and 6 defect shapes incl. cycles (step budget). Document-level structure (bnode inlining, qnames, RDF/XML nesting, whole JSON-LD documents) is not claimed.",
         note="Trusted base: CrossHair 0.0.110's model of Python str/int (counterexamples are replayed outside CrossHair; it has a known "
-             "unsoundness around negative slice bounds on symbolic strings), z3, the %s/str.format shims, the reference decoders/matchers "
+             "unsoundness around negative slice bounds on symbolic strings and does not model `$` matching before a final newline - `$`-terminated patterns are decided by the R obligations instead), z3, the %s/str.format shims, the reference decoders/matchers "
              "written from the W3C/XSD grammars, the regex translator for the R obligations. Strings longer than the stated bound are "
              "outside the claim; for R obligations the claim is for strings of every length over characters up to U+2FFFF.", ref="DESIGN.md section 3 C03"),
     "C07": dict(
@@ -119,7 +120,7 @@ CLAIMED = {
              "and gate-passing absolute IRIs within the readers' token patterns (any length); Literal.__eq__/__ne__ reflexive, symmetric, transitive and = (lexical, datatype, lower-cased tag) over symbolic language tags and symbolic datatype identities with concrete lexical forms. Other equality/hash/ordering/pickling laws over "
              "term contents are NOT covered (contents cannot be symbolic); the finite kind-order tables are checked by enumeration.",
         note="Trusted base: CrossHair 0.0.110's model of Python str/int (counterexamples are replayed outside CrossHair; it has a known "
-             "unsoundness around negative slice bounds on symbolic strings), z3, the %s/str.format shims, the reference decoders/matchers "
+             "unsoundness around negative slice bounds on symbolic strings and does not model `$` matching before a final newline - `$`-terminated patterns are decided by the R obligations instead), z3, the %s/str.format shims, the reference decoders/matchers "
              "written from the W3C/XSD grammars, the regex translator for the R obligations. Strings longer than the stated bound are "
              "outside the claim; for R obligations the claim is for strings of every length over characters up to U+2FFFF.", ref="DESIGN.md section 3 C07"),
     "C09": dict(
@@ -130,7 +131,7 @@ CLAIMED = {
              "XSD duration / language lexical spaces within the live parsing patterns (any length), Literal.eq/neq on numeric literals of 6 datatypes with unbounded symbolic integer values. Float, double, decimal, date/time "
              "value mappings and Literal construction itself are out of reach and not claimed.",
         note="Trusted base: CrossHair 0.0.110's model of Python str/int (counterexamples are replayed outside CrossHair; it has a known "
-             "unsoundness around negative slice bounds on symbolic strings), z3, the %s/str.format shims, the reference decoders/matchers "
+             "unsoundness around negative slice bounds on symbolic strings and does not model `$` matching before a final newline - `$`-terminated patterns are decided by the R obligations instead), z3, the %s/str.format shims, the reference decoders/matchers "
              "written from the W3C/XSD grammars, the regex translator for the R obligations. Strings longer than the stated bound are "
              "outside the claim; for R obligations the claim is for strings of every length over characters up to U+2FFFF.", ref="DESIGN.md section 3 C09"),
     "C17": dict(
@@ -138,10 +139,10 @@ CLAIMED = {
         text="Partial claim: Memory/SimpleMemory.bind keep prefix<->namespace a consistent two-way map for every history of <=3 binds "
              "(thorough 4) over opaque symbolic tokens; insert_trie/get_longest_namespace return the longest inserted namespace for "
              "symbolic strings (<=2-3 namespaces); split_uri/is_ncname on every string up to length 3 (thorough 4) over a stated alphabet. "
-             "NamespaceManager.bind x qname/curie/compute_qname interleavings (the stale-memo scenario) only with symbolic flags and "
+             "NamespaceManager.bind x qname/curie/compute_qname/n3 interleavings (the stale-memo scenario) only with symbolic flags and "
              "pool indices (enumeration; supplement).",
         note="Trusted base: CrossHair 0.0.110's model of Python str/int (counterexamples are replayed outside CrossHair; it has a known "
-             "unsoundness around negative slice bounds on symbolic strings), z3, the %s/str.format shims, the reference decoders/matchers "
+             "unsoundness around negative slice bounds on symbolic strings and does not model `$` matching before a final newline - `$`-terminated patterns are decided by the R obligations instead), z3, the %s/str.format shims, the reference decoders/matchers "
              "written from the W3C/XSD grammars, the regex translator for the R obligations. Strings longer than the stated bound are "
              "outside the claim; for R obligations the claim is for strings of every length over characters up to U+2FFFF.", ref="DESIGN.md section 3 C17"),
 }
